@@ -5,15 +5,14 @@ import (
 	"math"
 	"sort"
 
+	dtu "github.com/siglens/siglens/pkg/common/dtypeutils"
 	otsdbwriter "github.com/siglens/siglens/pkg/integrations/otsdb/writer"
 	"github.com/siglens/siglens/pkg/integrations/prometheus/promql"
 	"github.com/siglens/siglens/pkg/segment"
-	dtu "github.com/siglens/siglens/pkg/common/dtypeutils"
 	"github.com/siglens/siglens/pkg/segment/structs"
 	sutils "github.com/siglens/siglens/pkg/segment/utils"
 	"github.com/siglens/siglens/pkg/segment/writer/metrics"
 )
-
 
 func init() {
 	reg("otsdb", cmdOtsdb)
